@@ -107,7 +107,7 @@ std::vector<Sample> samplesFor(Ty t) {
     case T_UINT: return {{"0", true, ""}, {"12", true, ""}, {"-3", false, "negative"}, {"abc", false, "garbage"}, {"7x", false, "trailing-garbage"}, {"1.9", false, "fraction-for-integer"}, {"99999999999", false, "out-of-range"}};
     case T_INT64: return {{"0", true, ""}, {"104857600", true, ""}, {"8589934592", true, ""}, {"abc", false, "garbage"}, {"1x", false, "trailing-garbage"}, {"1.5", false, "fraction-for-integer"}, {"99999999999999999999", false, "out-of-range"}};
     case T_FLOAT:
-    case T_DOUBLE: return {{"0.85", true, ""}, {"1.25", true, ""}, {"2", true, ""}, {"abc", false, "garbage"}, {"1.5x", false, "trailing-garbage"}, {"nan", false, "non-finite"}, {"inf", false, "non-finite"}};
+    case T_DOUBLE: return {{"0.85", true, ""}, {"1.25", true, ""}, {"2", true, ""}, {"0.30000000000000004", true, ""}, {"1.0000000000000002", true, ""}, {"0.99999999999999989", true, ""}, {"abc", false, "garbage"}, {"1.5x", false, "trailing-garbage"}, {"nan", false, "non-finite"}, {"inf", false, "non-finite"}};
     case T_BOOL: return {{"true", true, ""}, {"false", true, ""}, {"1", true, ""}, {"0", true, ""}, {"True", true, ""}, {"False", true, ""}, {"yes", false, "garbage"}, {"2", false, "garbage"}, {"TRUE", false, "garbage"}};
     case T_RES: return {{"memory", true, ""}, {"io", true, ""}, {"cpu", false, "garbage"}};
     case T_SIZEPCT: return {{"1.5G 32K", true, ""}, {"512", true, ""}, {"50%", true, ""}, {"3T", true, ""}, {"abc", false, "garbage"}, {"10X", false, "garbage"}, {"120%", false, "out-of-range"}, {"1e30", false, "overflow"}, {"50%z", false, "trailing-garbage"}, {"5x%", false, "trailing-garbage"}, {"nan", false, "non-finite"}};
@@ -125,6 +125,8 @@ long double exactValue(Ty t, const std::string& text, long long memTotal, long l
       auto v = rn::refSizeOrPercent(text, swapBased ? swapTotal : memTotal);
       return (long double)v.lo;
     }
+    case T_DOUBLE: return (long double)strtod(text.c_str(), nullptr);  // the nearest double, exactly
+    case T_FLOAT: return (long double)strtof(text.c_str(), nullptr);
     default: return strtold(text.c_str(), nullptr);
   }
 }
@@ -354,6 +356,7 @@ struct IrCase {
   std::string cls;      // signature class when the verdict is wrong
   std::string checkArg; // arg whose parsed value is verified (valid samples)
   Ty checkTy = T_STR;
+  std::string bareArg;  // this argument is written as a bare JSON number
 };
 
 struct C12 : vr::Driver {
@@ -367,18 +370,19 @@ struct C12 : vr::Driver {
   int lenN = 5;
   std::string id() override { return "C12"; }
 
-  static std::string pluginJson(const std::string& name, const std::map<std::string, std::string>& args) {
+  // `bareArg`: that argument's value is written as a bare JSON number instead of a string (both spellings are accepted)
+  static std::string pluginJson(const std::string& name, const std::map<std::string, std::string>& args, const std::string& bareArg = "") {
     std::string j = "{\"name\":\"" + name + "\",\"args\":{";
     bool first = true;
     for (auto& kv : args) {
-      j += std::string(first ? "" : ",") + "\"" + kv.first + "\":\"" + kv.second + "\"";
+      j += std::string(first ? "" : ",") + "\"" + kv.first + "\":" + (kv.first == bareArg ? kv.second : "\"" + kv.second + "\"");
       first = false;
     }
     return j + "}}";
   }
   static std::string docFor(const PluginSpec& ps, const std::map<std::string, std::string>& args, bool dropin,
-                            const std::string& rulesetExtra = "") {
-    std::string pj = pluginJson(ps.name, args), cont = "{\"name\":\"continue\",\"args\":{}}";
+                            const std::string& rulesetExtra = "", const std::string& bareArg = "") {
+    std::string pj = pluginJson(ps.name, args, bareArg), cont = "{\"name\":\"continue\",\"args\":{}}";
     std::string rs = "{\"name\":\"R1\"" + rulesetExtra + ",\"detectors\":[[\"g1\"," + (ps.action ? cont : pj) + "]],\"actions\":[" +
                      (ps.action ? pj : cont) + "]}";
     (void)dropin;
@@ -411,6 +415,16 @@ struct C12 : vr::Driver {
           IrCase c{std::string(ps.name) + ": " + a.name + "='" + smp.text + "'", (int)pi, m, smp.valid,
                    smp.valid ? std::string("rejected-valid:") + a.name : std::string("accepted-invalid:") + smp.cls, smp.valid ? a.name : "", a.ty};
           irCases.push_back(c);
+          // the same valid number as a bare JSON number
+          bool numeric = a.ty == T_INT || a.ty == T_UINT || a.ty == T_INT64 || a.ty == T_DOUBLE || a.ty == T_FLOAT || a.ty == T_MS || a.ty == T_PCTILE;
+          std::string st = smp.text;
+          bool jsonNumber = !st.empty() && st.find_first_not_of("0123456789.-") == std::string::npos && isdigit((unsigned char)st.back());
+          if (smp.valid && numeric && jsonNumber) {
+            IrCase cb = c;
+            cb.desc += " (bare JSON number)";
+            cb.bareArg = a.name;
+            irCases.push_back(cb);
+          }
         }
         if (a.ty != T_STR && a.ty != T_CGROUP) {
           auto m = base;
@@ -668,7 +682,7 @@ struct C12 : vr::Driver {
       const IrCase& c = irCases[i];
       const PluginSpec& ps = specs()[c.plugin];
       vr::note("IR case " + c.desc);
-      std::string doc = docFor(ps, c.args, false);
+      std::string doc = docFor(ps, c.args, false, "", c.bareArg);
       for (int path = 0; path < 2; path++) {
         bool accepted, threw;
         std::string exc, frames;
@@ -703,7 +717,16 @@ struct C12 : vr::Driver {
           // precisely the given arguments
           auto given = plugin->getPluginArgs();
           std::map<std::string, std::string> g(given.begin(), given.end());
-          if (g != c.args) r.violate("C12|ir|args-not-as-given", c.desc + ": plugin was initialised with different arguments than configured");
+          auto want = c.args;
+          if (!c.bareArg.empty() && g.count(c.bareArg) && want.count(c.bareArg)) {
+            // a bare JSON number reaches the plugin in whatever spelling the JSON layer prints; it must denote the SAME number
+            // (same nearest double), the spelling itself is free
+            char* e1 = nullptr;
+            char* e2 = nullptr;
+            double a = strtod(g[c.bareArg].c_str(), &e1), b = strtod(want[c.bareArg].c_str(), &e2);
+            if (*e1 == 0 && *e2 == 0 && a == b) g[c.bareArg] = want[c.bareArg];
+          }
+          if (g != want) r.violate("C12|ir|args-not-as-given", c.desc + ": plugin was initialised with different arguments than configured");
           // exact parsed values
           for (auto& kv : c.args) {
             Ty ty = T_STR;
@@ -714,7 +737,7 @@ struct C12 : vr::Driver {
             if (std::isnan(got)) continue;
             bool swapBased = std::string(ps.name) == "kill_by_swap_usage";
             long double want = exactValue(ty == T_PCTILE ? T_INT : ty, kv.second, memTotal, swapTotal, swapBased);
-            long double tol = (ty == T_FLOAT) ? 1e-6L : (ty == T_DOUBLE ? 1e-12L : 0);
+            long double tol = 0;  // also for fractional arguments: the held value is the nearest double / float of the written number
             if (std::fabs(got - want) > tol * std::max<long double>(1, std::fabs(want)) + (ty == T_SIZEPCT && kv.second.find('.') != std::string::npos ? 1 : 0))
               r.violate(std::string("C12|ir|value-not-honoured:") + ps.name + ":" + kv.first,
                         c.desc + ": argument " + kv.first + "='" + kv.second + "' is held as " + std::to_string((double)got) + " expected " + std::to_string((double)want));
